@@ -207,6 +207,7 @@ class Machine:
         self.pool = []
         self.stats = {"ops": 0, "lib_exceptions": {}, "inplace_followed": 0, "optional_arg": 0, "derived_from_modified": 0,
                       "alias_operand": 0, "skipped": 0}
+        self.last_related = []    # result and operands of the previous operation (in-place ops prefer them as receivers)
         self.modified = set()     # ids of objects modified in place
         self.aliases = set()      # ids of objects that share storage with another pool object
         self.trace = []
@@ -693,6 +694,10 @@ class Machine:
         # ------------------------------------------------------------------ in-place
         elif name in ("set_core", "set_core_newsize"):
             x = self.pick(a, lambda o: True)
+            rel = [o for o in self.last_related if any(o is q for q in self.pool)]
+            if rel and p % 2 == 0:
+                # modify an object that the previous operation produced or consumed (parent/child and alias histories)
+                x = rel[(p // 2) % len(rel)]
             target = x
             k = p % len(x.N)
             shp = list(x.cores[k].shape)
@@ -702,6 +707,10 @@ class Machine:
         elif name in ("reduce_dims", "reduce_dims_exclude"):
             x = self.pick(a, lambda o: any(n == 1 and (not o.is_ttm or o.M[i] == 1) for i, n in enumerate(o.N)) and
                           any(n > 1 for n in o.N))
+            rel = [o for o in self.last_related if any(o is q for q in self.pool) and
+                   any(n == 1 and (not o.is_ttm or o.M[i] == 1) for i, n in enumerate(o.N)) and any(n > 1 for n in o.N)]
+            if rel and p % 2 == 0:
+                x = rel[(p // 2) % len(rel)]
             if x is None:
                 base = self.mk_t([2, 1, 3, 1][:2 + p % 3], seed)
                 self.add(base)
@@ -757,6 +766,8 @@ class Machine:
                     self.modified.add(id(res))
                 if isinstance(res, T.TT):
                     self.add(res)
+                if name not in INPLACE:
+                    self.last_related = [o for o in ([res] + list(operands)) if isinstance(o, T.TT)]
                 # ---- invariants
                 if self.mode == "wellformed":
                     for o in reg.alive():
